@@ -256,7 +256,8 @@ fn check_text(case: &Case, obs: &mut Obs) -> Verdict {
         Algo::Optimal(p) => p,
         _ => return Verdict::Skipped("not optimal-fit"),
     };
-    let lines = textwrap::wrap(text, o.build());
+    let built = o.build();
+    let lines = if o.by_ref(text) { textwrap::wrap(text, &built) } else { textwrap::wrap(text, o.build()) };
     obs.calls += 1;
     if obs.want_sample {
         obs.out = Some(lines_json(&lines));
